@@ -276,8 +276,21 @@ fn index_case(seed: u64, idx: usize, sc: Scale, out: &mut Out) {
                         2 => inserted.iter().next().copied().unwrap_or(7),
                         _ => rng.below(1 << 20),
                     };
-                    let v = pick_vec(&mut rng);
-                    if index.add_vector(id, &v).is_ok() {
+                    let mut v = pick_vec(&mut rng);
+                    let wrong = rng.chance(0.05);
+                    if wrong {
+                        if rng.chance(0.5) {
+                            v.push(0.25);
+                        } else {
+                            v.pop();
+                        }
+                    }
+                    let r = index.add_vector(id, &v);
+                    if wrong && r.is_ok() {
+                        out.violation("index-wrong-dimension-vector-accepted", format!("a vector of {} components was accepted by an index of dimension {}", v.len(), dim), desc.clone());
+                        return;
+                    }
+                    if r.is_ok() {
                         inserted.insert(id);
                         inserts += 1;
                     }
@@ -329,7 +342,20 @@ fn index_case(seed: u64, idx: usize, sc: Scale, out: &mut Out) {
                     4 => Some(usize::MAX),
                     _ => Some(rng.range(1, 600) as usize),
                 };
-                let q = pick_vec(&mut rng);
+                let mut q = pick_vec(&mut rng);
+                // wrong-dimension queries (longer / much longer / shorter / empty) must be refused
+                // before any kernel sees them
+                let wrong_dim = rng.chance(0.15);
+                if wrong_dim {
+                    match rng.below(4) {
+                        0 => q.push(0.5),
+                        1 => q = q.iter().cycle().take(dim * 4 + 3).copied().collect(),
+                        2 => {
+                            q.pop();
+                        }
+                        _ => q.clear(),
+                    }
+                }
                 let flag = AtomicBool::new(false);
                 let mode = rng.below(4);
                 let res = match mode {
@@ -371,6 +397,10 @@ fn index_case(seed: u64, idx: usize, sc: Scale, out: &mut Out) {
                     }
                 };
                 searches += 1;
+                if wrong_dim && res.is_ok() && index.len() > 0 {
+                    out.violation("index-wrong-dimension-query-served", format!("a query of {} components was served by an index of dimension {}", q.len(), dim), desc.clone());
+                    return;
+                }
                 if let Ok(rs) = res {
                     if rs.len() > k {
                         out.violation("index-more-than-k", format!("{} results for k {}", rs.len(), k), desc.clone());
